@@ -43,7 +43,8 @@ def main():
     cleanup_scratch()
     sys.exit(rep.finish(cov, ENGINE_A_ASSUMPTIONS + [
         "numerical accuracy of libm is trusted: the claim is 'calls its namesake with the arguments in order and uses the result correctly'",
-        "remquo (int* out-parameter) and nan (const char* argument) have no call form with numeric query arguments; they are listed, not exercised",
+        "remquo (int* out-parameter) and nan (const char* argument) have no call form with numeric query arguments: their programs are reported under KF-remquo-nan-signature",
+        "compiler options of the generated build (e.g. -Ofast / -ffast-math in package_CMakeLists.txt) that change floating-point results without changing the emitted expressions are outside the encoding",
         "sign of zero and NaN/inf are outside the real-number abstraction (copysign(x, 0) treated as +0)"]))
 
 
